@@ -13,6 +13,19 @@ E2 = "explicit-state search over operation histories of the real objects against
 E3 = "bounded-exhaustive input/configuration enumeration against a reference model (depth-1 model checking)"
 
 CHECKS = {
+    "C16": dict(
+        engine="E2-hist (differential)",
+        category="exploration",
+        technique="bounded enumeration of reachable gateway states (prefixes and single edits of recorded histories) with a differential oracle: state rebuilt in a fresh real Gateway must equal the state it was saved from",
+        text="Gateway states = every 5th (thorough: every) prefix of the repo's system/schema/eavesdrop/device logs and the end of every single deletion/"
+        "duplication of the shortest logs, eavesdropping off and on. At each state and for include_expired off/on: get_state() -> content rules (every "
+        "packet decodes; no RQ; no W but 0404; nothing expired unless asked, judged on freshly decoded messages) -> a brand-new Gateway on a new virtual "
+        "loop started with the saved schema and packets -> get_state() again must return the same packets, and the same schema with eavesdropping off -> "
+        "restoring the snapshot a second time, and into the gateway it came from, changes nothing.",
+        design_ref="4/C16",
+        note="Histories are given increasing unique timestamps (some repo logs are curated out of order); with include_expired the fixpoint is demanded of the "
+        "packets live at snapshot time (expired ones may only disappear, by design of expiry).",
+    ),
     "C13": dict(
         engine="E2-hist",
         category="exploration",
